@@ -141,6 +141,34 @@ def check(ctx):
         guards = []
         for a in tm.atoms(rm.ret.args[0] if rm.ret.op == "ite" else tm.TRUE):
             guards.append(a)
+        # evidence that needs no arithmetic: the tolerance window
+        # [t - max_diff, t + max_diff] is closed (`<= max_diff`), so its
+        # upper end has to be located with side='right' and its lower end
+        # with side='left'; the other side excludes a counterpart that is
+        # exactly max_diff away
+        md = tm.param("max_diff")
+        for e in fast:
+            a_ = e.data["args"]
+            kw = dict(e.data["kwargs"])
+            val = a_[1] if len(a_) > 1 else kw.get("v")
+            side = a_[2] if len(a_) > 2 else kw.get("side", const("left"))
+            if val is None or not tm.is_const(side):
+                continue
+            v0 = Interp.unname(val)
+            if v0.op == "binop" and v0.args[0] in ("Add", "Sub") and \
+                    v0.args[2] is md:
+                upper = v0.args[0] == "Add"
+                want = "right" if upper else "left"
+                if tm.const_val(side) != want:
+                    ctx.ob("C05.3", e, False,
+                           f"the {'upper' if upper else 'lower'} end of the "
+                           f"tolerance window ({fmt(v0)[:40]}) is located "
+                           f"with np.searchsorted(side="
+                           f"'{tm.const_val(side)}'): a counterpart exactly "
+                           f"max_diff {'later' if upper else 'earlier'} is "
+                           f"left out of the window although its difference "
+                           f"is within max_diff (<=)",
+                           key="C05.3:window-side")
         ctx.undecidable("C05.3", fast[0], "matching_time_indices looks the "
                         "nearest stamps up with np.searchsorted: which "
                         "counterpart a binary search reports for ties, equal "
@@ -557,7 +585,8 @@ def _reduce_together(ctx):
     n = import_rules(ctx, "c08", ("C08.1", "C08.3"), "C05.10",
                      pred=lambda o: "reduce_to_ids" in o.key or
                      "subclass" in o.key or o.key.endswith(":selection")
-                     or o.key.endswith(":unconditional"))
+                     or o.key.endswith(":unconditional")
+                     or o.key.endswith(":dropped"))
     ctx.require(n >= 10, "C05.10: reduce_to_ids instances not found")
     # the command-line tools hand the user's tolerance and offset to the
     # association as given: `--t_max_diff 0` (identical stamps only) and an
